@@ -138,13 +138,12 @@ Lemma in_start_not_after ph : in_start ph -> after_start ph -> False.
 Proof. intros [-> | ->] H; exact H. Qed.
 
 (* the caller's dispatch inside _start (both combined steps share this) *)
-Lemma invB_start_step s b s1 r : InvAll s -> InvB s -> 1 <= n_jobs (c s) -> okB b -> in_start (phase s) ->
+Lemma invB_start_step_any s b s1 r : InvAll s -> InvB s -> 1 <= n_jobs (c s) -> okB b -> in_start (phase s) ->
   dispatch_shape s b false s1 r ->
   forall s2, ready s2 = ready s1 -> trk s2 = trk s1 -> cid s2 = cid s1 -> closed s2 = closed s1 -> c s2 = c s1 ->
-    ifail s2 = ifail s1 -> pre_left s2 = pre_left s1 -> noisy s2 = noisy s1 ->
-    (phase s2 = StartLoop \/ phase s2 = Retrieving) -> InvB s2.
+    ifail s2 = ifail s1 -> pre_left s2 = pre_left s1 -> noisy s2 = noisy s1 -> InvB s2.
 Proof.
-  intros HA HB Hnj Hb Hst Hsh s2 Er Et Ei Ecl Ec Eif Epl En Hp2.
+  intros HA HB Hnj Hb Hst Hsh s2 Er Et Ei Ecl Ec Eif Epl En.
   destruct HA as [[[[[H1 H2] H3] H4] H5] H6].
   pose proof (invB_dispatch s b false s1 r H2 HB Hnj Hb Hsh) as (D1 & D2 & D3 & D4 & D5).
   assert (Hc1 : c s1 = c s) by (inversion Hsh; subst; reflexivity).
@@ -164,6 +163,13 @@ Proof.
   - rewrite Hn1, Hi1, Hc1. intros Hn Hi p Hp _. exact (Hsum Hn Hi p Hp).
   - rewrite Hn1, Hi1, Hc1. intros Hn Hi p Hp _. destruct (Hsum Hn Hi p Hp) as (q & _ & Hle). unfold opens in Hle. lia.
 Qed.
+
+Lemma invB_start_step s b s1 r : InvAll s -> InvB s -> 1 <= n_jobs (c s) -> okB b -> in_start (phase s) ->
+  dispatch_shape s b false s1 r ->
+  forall s2, ready s2 = ready s1 -> trk s2 = trk s1 -> cid s2 = cid s1 -> closed s2 = closed s1 -> c s2 = c s1 ->
+    ifail s2 = ifail s1 -> pre_left s2 = pre_left s1 -> noisy s2 = noisy s1 ->
+    (phase s2 = StartLoop \/ phase s2 = Retrieving) -> InvB s2.
+Proof. intros HA HB Hnj Hb Hst Hsh s2 Er Et Ei Ecl Ec Eif Epl En _. eapply invB_start_step_any; eassumption. Qed.
 
 Lemma invB_cb_close s t k : Inv2 s -> InvB s -> nth_error (trk s) t = Some k -> In t (cbmid s) -> tk_cid k = cid s ->
   InvB (closed_state s t k) /\
@@ -267,6 +273,11 @@ Proof.
     eapply invB_same; [exact HB | reflexivity ..| cbn; auto | cbn; auto | cbn; auto].
   - intros s [HA HB] Hp. split; [apply invall_close_try; assumption|].
     eapply invB_same; [exact HB | reflexivity ..| cbn; auto | cbn; unfold in_start; intros [A|A]; discriminate | cbn; rewrite Hp; auto].
+  - (* the backend refuses a batch *)
+    intros s b s1 [HA HB] Hnj Hb Hph Hsh. split; [eapply invall_refuse; [exact HA | exact Hnj | apply okB_pos; exact Hb | left; exact Hph | exact Hsh]|].
+    eapply (invB_start_step_any s b s1 true HA HB Hnj Hb (or_introl Hph) Hsh); reflexivity.
+  - intros s b s1 [HA HB] Hnj Hb Hph Hsh. split; [eapply invall_refuse; [exact HA | exact Hnj | apply okB_pos; exact Hb | right; exact Hph | exact Hsh]|].
+    eapply (invB_start_step_any s b s1 true HA HB Hnj Hb (or_intror Hph) Hsh); reflexivity.
   - intros s r [HA HB] Hp. split; [eapply invall_close_drain; eassumption|].
     eapply invB_same; [exact HB | reflexivity ..| cbn; auto | cbn; unfold in_start; intros [A|A]; discriminate | cbn; rewrite Hp; auto].
   - intros s j [HA HB] Hw Ht Hst. split; [apply invall_timeout; assumption|].
